@@ -177,6 +177,10 @@ def run_attack(cfg, out):
                     # hello flood from fresh addresses (real, full-size hellos): each may be answered once
                     hello_n[0] += 1
                     addr = ("10.9.%d.%d" % ((hello_n[0] >> 8) & 255, hello_n[0] & 255), 1000 + (hello_n[0] >> 16))
+                    if r.random() < 0.35:
+                        # ... or from the honest client's own IP address, other ports (a NAT neighbour, or spoofed): bursts of them
+                        addr = (honest.addr[0], 20000 + hello_n[0] % 30000)
+                        c.inc("inj_hello_flood_from_honest_ip")
                     w.offer_server(addr, hello, "hello-flood")
                     half_open.append(addr)
                     c.inc("inj_hello_flood")
@@ -378,7 +382,7 @@ def run_shard(cfg):
 def finish(tier, seed, results):
     m = merge(results)
     inconclusive = []
-    need(m["counters"], ["echo_requests", "echoes_received", "inj_random_bytes", "inj_hello_flood", "inj_hello_repeat", "inj_hello_undersized", "inj_hello_every_length",
+    need(m["counters"], ["echo_requests", "echoes_received", "inj_random_bytes", "inj_hello_flood", "inj_hello_repeat", "inj_hello_undersized", "inj_hello_every_length", "inj_hello_flood_from_honest_ip",
                          "inj_from_blocklisted", "inj_spoofed_from_honest", "inj_authenticated_flood", "bytes_to_unauthenticated_addresses",
                          "offered_blocklisted", "appended", "server_iterations", "freerun_appended", "freerun_consumed"], inconclusive)
     cov = {
